@@ -1,8 +1,8 @@
 package props
 
 import (
-	"go/token"
 	"fmt"
+	"go/token"
 	"strings"
 
 	"verif/third_party/xtools/go/ssa"
